@@ -68,7 +68,7 @@ def load_known():
         return json.load(fh)
 
 
-def run_property(pid, rules, ctx, tier, level_text, assumptions, explanation, seed=0):
+def run_property(pid, rules, ctx, tier, level_text, assumptions, explanation, seed=0, extra=None):
     """rules: list of callables(ctx, tier) -> RuleResult | [RuleResult]"""
     t0 = time.time()
     results = []
@@ -148,6 +148,7 @@ def run_property(pid, rules, ctx, tier, level_text, assumptions, explanation, se
             "known_findings_hit": [{"rule": f.rule, "key": f.key, "what_fails": k["what_fails"]} for f, k in known_hits],
             "trusted_base": ["rustc 1.97-nightly MIR construction (mir_built) and trait resolution", "the fact extractor /verif/driver", "callback summaries and thread-root tables in /verif/analysis"],
             "checker_cmd": "./check %s --tier %s" % (pid, tier),
+            "thorough": extra or None,
         },
         "assumptions": assumptions,
         "wall_s": round(time.time() - t0 + ctx.extract_seconds, 3),
